@@ -312,11 +312,144 @@ def check(repo: Repo, R) -> None:
     R.check(not over, "C08.3-failed-visit-recorded-and-reraised", f"{F_BASE}::ElabPass::visit-not-overridden", base.site,
             f"{npass} pass classes; none overrides the base visit (where pending / done / failed are kept)" if not over else f"{over} replace(s) the base visit: what happens in it is outside the pending / done / failed bookkeeping",
             why="a pass fails outside the bookkeeping: the module is not recorded as failed, earlier passes have it cached as done, and the next call skips every check")
+    R.run(nothing_fails_after_done, repo, R, visits)
+    R.run(failure_record_kept, repo, R, visits)
+    R.run(no_shared_pass_state, repo, R)
     from . import c02
     from .shared import Retag
 
     R.run(c02.live_passes, repo, Retag(R, lambda r, k: "C08.4-every-call-runs-every-pass" if k.endswith("Elaborator.elaborate") else None,
                                 "a repeated call on a design that an earlier call rejected skips the pass that rejected it and returns a package"))
+    # a failed elaboration leaves healthy siblings between marks (flattened, not yet marked elaborated): what a later
+    # parent sees of them must be decided by the mark the flattening pass itself leaves
+    from . import c07 as _c07
+    if not getattr(R, "_c07_attached", False):
+        R.run(_c07.io_choice, repo, Retag(R, lambda r: "C08.6-interface-by-the-flattening-mark",
+                                         "after a failure past bundle flattening, a later healthy design that shares a flattened-but-unmarked sub-module resolves port references against its flattened ports: a spurious `Invalid port` error for a design that does not contain the offending module"))
     R.floor("C08.1-pending-released-on-every-exit", 2)
     R.floor("C08.2-done-only-after-body-returned", 2)
     R.floor("C08.3-failed-visit-recorded-and-reraised", 1)
+
+
+
+def _done_stores(v: _Visit) -> List[ast.stmt]:
+    out = []
+    for st in au.stmts(v.fi.node):
+        if isinstance(st, ast.Expr) and isinstance(st.value, ast.Call):
+            c = st.value
+            if isinstance(c.func, ast.Attribute) and c.func.attr == "add" and _norm(c.func.value, v.env).endswith(".done"):
+                out.append(st)
+        if isinstance(st, ast.Assign):
+            for t in st.targets:
+                if isinstance(t, ast.Subscript) and _norm(t.value, v.env).endswith(".done"):
+                    out.append(st)
+    return out
+
+
+def nothing_fails_after_done(repo: Repo, R, visits) -> None:
+    """C08.2, second half: once the result is recorded as done nothing that can raise runs before the call returns
+    (otherwise the failure handler leaves the record behind and the repeated call returns the half-finished result)."""
+    rule = "C08.2-done-only-after-body-returned"
+    for v in visits:
+        fi = v.fi
+        cfg = CFG(fi.node, may_raise)
+        for st in _done_stores(v):
+            start = cfg.nodes_for(st)
+            seen = set()
+            work = [n.id for n in start]
+            risky = []
+            while work:
+                nid = work.pop()
+                if nid in seen:
+                    continue
+                seen.add(nid)
+                for dst, label in cfg.succ[nid]:
+                    if label == "exc":
+                        if nid not in [n.id for n in start]:
+                            risky.append(cfg.nodes[nid])
+                        continue
+                    work.append(dst)
+            risky = [n for n in risky if n.ast is not None]
+            R.check(not risky, rule, key_of(fi, ast.unparse(st).split("\n")[0] + "::last-thing-that-can-fail"), fi.at(st),
+                    "nothing that can raise runs between the `done` store and the return" if not risky else
+                    f"after `{ast.unparse(st)}` the call can still fail (line {risky[0].lineno}: `{ast.unparse(risky[0].ast).splitlines()[0][:70]}`): the record stays, the failure handler does not remove it",
+                    why="a call that failed after its result was cached is answered from the cache next time: the half-finished module is returned where a fresh process raises")
+
+
+_DROP_SAMPLE = "def f(self, t):\n    self.CLASS_LEVEL_CACHE.failed.pop(t, None)\n    del self.C.failed[t]\n"
+
+
+def _drops(tree: ast.AST, attr: str) -> List[ast.AST]:
+    out = []
+    for n in ast.walk(tree):
+        if isinstance(n, ast.Call) and isinstance(n.func, ast.Attribute) and n.func.attr in ("pop", "clear", "discard", "remove", "popitem") and isinstance(n.func.value, ast.Attribute) and n.func.value.attr == attr:
+            out.append(n)
+        if isinstance(n, ast.Delete):
+            for t in n.targets:
+                if isinstance(t, ast.Subscript) and isinstance(t.value, ast.Attribute) and t.value.attr == attr:
+                    out.append(n)
+    return out
+
+
+def failure_record_kept(repo: Repo, R, visits) -> None:
+    rule = "C08.3-failed-visit-recorded-and-reraised"
+    if len(_drops(ast.parse(_DROP_SAMPLE), "failed")) != 2:
+        raise AnalysisError("self-check failed: the record-dropped rule does not see its positive sample")
+    v = visits[0]
+    # the record container: `<cache>.X[subj] = e` in an exception handler of the visit
+    attrs = set()
+    for h in ast.walk(v.fi.node):
+        if isinstance(h, ast.ExceptHandler):
+            for st in ast.walk(h):
+                if isinstance(st, ast.Assign) and isinstance(st.targets[0], ast.Subscript) and isinstance(st.targets[0].value, ast.Attribute):
+                    attrs.add(st.targets[0].value.attr)
+    if not attrs:
+        raise AnalysisError(f"anchor-vanished: no failure record store in a handler of {v.fi.site}")
+    drops = []
+    nf = 0
+    for fi in repo.funcs_in("hdl21/"):
+        nf += 1
+        for a in attrs:
+            for d in _drops(fi.node, a):
+                drops.append((fi, d))
+    R.check(not drops, rule, key_of(v.fi, "record-never-dropped"), drops[0][0].at(drops[0][1]) if drops else v.fi.site,
+            f"nothing in hdl21/ ({nf} functions) removes an entry of the failure record `{sorted(attrs)}`" if not drops else
+            f"`{ast.unparse(drops[0][1])[:80]}` in {drops[0][0].qual} drops a failure record",
+            why="the pass that failed half-way runs again on the half-rewritten module: the second call of the same design returns a different answer (or a package) instead of the original error")
+
+
+def no_shared_pass_state(repo: Repo, R) -> None:
+    rule = "C08.5-no-state-shared-between-calls"
+    base = repo.cls(F_BASE, "ElabPass")
+    n = 0
+    bad = []
+    for ci in repo.classes_in("hdl21/elab/"):
+        if ci is not base and base not in repo.mro(ci):
+            continue
+        n += 1
+        for st in ci.node.body:
+            tg = val = None
+            if isinstance(st, ast.Assign) and len(st.targets) == 1:
+                tg, val = st.targets[0], st.value
+            elif isinstance(st, ast.AnnAssign):
+                tg, val = st.target, st.value
+            if tg is None or val is None or not isinstance(tg, ast.Name) or tg.id == "CLASS_LEVEL_CACHE":
+                continue
+            mutable = isinstance(val, (ast.List, ast.Dict, ast.Set, ast.ListComp, ast.DictComp, ast.SetComp)) or (isinstance(val, ast.Call) and (dotted(val.func) or "").split(".")[-1] in ("list", "dict", "set", "defaultdict", "OrderedDict", "deque"))
+            if mutable:
+                bad.append((ci, st, tg.id))
+    if n < 6:
+        raise AnalysisError(f"anchor-vanished: only {n} pass classes found")
+    init = base.methods.get("__init__")
+    fresh = False
+    if init is not None:
+        for st in au.stmts(init.node):
+            if isinstance(st, (ast.Assign, ast.AnnAssign)):
+                tg = st.targets[0] if isinstance(st, ast.Assign) else st.target
+                val = st.value
+                if ast.unparse(tg) == "self.stack" and val is not None and ast.unparse(val) in ("list()", "[]"):
+                    fresh = True
+    R.check(not bad and fresh, rule, f"{F_BASE}::ElabPass::per-call-state", base.site if not bad else f"{bad[0][0].file.rel}:{bad[0][1].lineno} {bad[0][0].name}",
+            f"{n} pass classes: the only class-level container is the done/pending/failed cache; the hierarchy stack is created per pass object in __init__: {fresh}" if not bad else
+            f"`{bad[0][0].name}.{bad[0][2]}` is a container on the class: every pass object of every call shares it",
+            why="a failing visit never pops its stack entries; with a shared stack they stay for the life of the process and every later error message names modules of the earlier, unrelated design")
